@@ -482,6 +482,7 @@ type Contract struct {
 	Loops      map[int]*LoopSpec
 	Lets       []LetDef
 	NoPanic    bool
+	NoPanicUntil string
 	Pure       bool     // result is a function of the arguments (and Reads)
 	Reads      []string // heap arrays (T::field) a pure function depends on
 	Trusted    bool     // ext contract: assumed, body not verified
@@ -491,6 +492,8 @@ type Contract struct {
 	Iface      bool // contract for an interface method
 	GhostCalls []Clause
 	Records    []Clause // history tokens: uninterpreted predicates asserted of the call's arguments/results (assumed at call sites, nothing to check)
+	Reveal     []string // opaque predicates whose definitions are expanded when verifying this function
+	HavocCalls []string // callees whose calls are abstracted by their computed write set here (their contracts/bodies are not used)
 	Forget     []string // "callee" or "callee:label": callee ensures that are not imported when verifying this function (keeps queries small)
 	Uses       []string // axioms to include when verifying this function
 	Implements []string // pkg.Iface.Method interface contracts this function must satisfy
@@ -510,6 +513,7 @@ type Lemma struct {
 	Name   string
 	Params []SVar
 	Steps  []LemmaStep
+	Reveal []string
 	Uses   []string
 	Pkg    string
 	Pos    string
@@ -523,6 +527,7 @@ type PureDef struct {
 	Body    SExpr // nil => uninterpreted
 	Text    string
 	IsPred  bool
+	Opaque  bool // treated as uninterpreted (over the heap arrays its body reads) unless revealed
 	Pkg     string
 	Pos     string
 	Trigger bool
@@ -552,7 +557,7 @@ type SpecFile struct {
 	Lemmas    []*Lemma
 }
 
-var keywordRe = regexp.MustCompile(`^(package|func|interface|requires|ensures|assigns|invariant|decreases|loop|pure|pred|axiom|ghost|nopanic|let|letold|reads|trusted|callback|cb_requires|cb_ensures|cb_assigns|cb_pure|inline|opaque|modifies|implements|lemma|call|assert|probe|uses|records|witness|forget|checks)\b`)
+var keywordRe = regexp.MustCompile(`^(package|func|interface|requires|ensures|assigns|invariant|decreases|loop|pure|pred|axiom|ghost|nopanic|let|letold|reads|trusted|callback|cb_requires|cb_ensures|cb_assigns|cb_pure|inline|opaque|modifies|implements|lemma|call|assert|probe|uses|records|witness|forget|checks|havocs|reveal)\b`)
 
 var labelRe = regexp.MustCompile(`^\[([A-Za-z0-9_./-]+)\]\s*`)
 
@@ -675,6 +680,15 @@ func ParseSpecFile(path string, data []byte, defaultPkg string) (*SpecFile, erro
 				return nil, err
 			}
 			curLemma.Steps = append(curLemma.Steps, LemmaStep{Clause: cl})
+		case "reveal":
+			names := strings.Fields(strings.ReplaceAll(s.text, ",", " "))
+			if curLemma != nil {
+				curLemma.Reveal = append(curLemma.Reveal, names...)
+			} else {
+				cur.Reveal = append(cur.Reveal, names...)
+			}
+		case "havocs":
+			cur.HavocCalls = append(cur.HavocCalls, strings.Fields(strings.ReplaceAll(s.text, ",", " "))...)
 		case "forget":
 			cur.Forget = append(cur.Forget, strings.Fields(strings.ReplaceAll(s.text, ",", " "))...)
 		case "uses":
@@ -808,6 +822,10 @@ func ParseSpecFile(path string, data []byte, defaultPkg string) (*SpecFile, erro
 			curLoop.Modifies = append(curLoop.Modifies, strings.Fields(strings.ReplaceAll(s.text, ",", " "))...)
 		case "nopanic":
 			cur.NoPanic = true
+			// `nopanic until X`: safety obligations for the part of the function executed before the first call of X
+			if f := strings.Fields(s.text); len(f) == 2 && f[0] == "until" {
+				cur.NoPanicUntil = f[1]
+			}
 		case "trusted":
 			cur.Trusted = true
 		case "inline":
@@ -968,6 +986,10 @@ func parsePureDef(text string, isPred bool) (*PureDef, error) {
 	if k := strings.Index(rest, ":="); k >= 0 {
 		body = strings.TrimSpace(rest[k+2:])
 		rest = strings.TrimSpace(rest[:k])
+	}
+	if strings.HasSuffix(rest, " opaque") || rest == "opaque" {
+		pd.Opaque = true
+		rest = strings.TrimSpace(strings.TrimSuffix(rest, "opaque"))
 	}
 	if k := strings.Index(rest, "reads "); k >= 0 {
 		pd.Reads = strings.Fields(strings.ReplaceAll(rest[k+6:], ",", " "))
